@@ -32,3 +32,64 @@ func VerifC14Surface() {
 	zzverif.Assert(!addressed || changed, "in-range-write-is-stored")
 	zzverif.Reach("end")
 }
+
+// VerifC14RenderTree: rendering a surface tree paints each child at its offset, clipped to
+// its parent, in z-order: a 4x3 root with children A (3x2, holding a 1x1 grandchild G) and B
+// (2x2) at origins before, at the edge of, inside and beyond the parent, with free z-index;
+// every screen cell then shows the topmost surface covering it (G over A; A and B by
+// z-index; equal z-index on an overlap is unconstrained), and nothing is painted outside a
+// parent. Origins are picked from lists, one concrete path per combination (symbolic origins
+// make every screen cell a case split over all cells).
+func VerifC14RenderTree() {
+	fill := func(w, h int, g string) Surface {
+		s := NewSurface(uint16(w), uint16(h), nil)
+		for i := range s.Buffer {
+			s.Buffer[i] = vaxis.Cell{Character: vaxis.Character{Grapheme: g, Width: 1}}
+		}
+		return s
+	}
+	pick := func(name string, vals ...int) int {
+		return zzverif.Concrete(vals[zzverif.Choose(name, len(vals))])
+	}
+	aw, ah, bw, bh := 3, 2, 2, 2
+	ax, ay := pick("ax", -1, 0, 2, 3), pick("ay", -1, 0, 2)
+	bx, by := pick("bx", -1, 1, 3), pick("by", 0, 2)
+	gx, gy := pick("gx", -1, 0, 2), 0
+	az, bz := pick("az", 0, 1), pick("bz", 0, 1)
+	a := fill(aw, ah, "a")
+	a.AddChild(gx, gy, fill(1, 1, "g"))
+	sa, sb := NewSubSurface(ax, ay, a), NewSubSurface(bx, by, fill(bw, bh, "b"))
+	sa.ZIndex, sb.ZIndex = az, bz
+	root := fill(4, 3, "r")
+	root.Children = []SubSurface{sa, sb}
+	if az == 1 && bz == 0 {
+		root.Children = []SubSurface{sb, sa}
+	}
+	vx := vaxis.VerifBare(4, 3)
+	root.render(vx.Window(), nil)
+	ok := true
+	for y := 0; y < 3; y++ {
+		for x := 0; x < 4; x++ {
+			inA := x >= ax && x < ax+aw && y >= ay && y < ay+ah
+			inB := x >= bx && x < bx+bw && y >= by && y < by+bh
+			// the grandchild is clipped to A: it shows only inside A's rectangle
+			inG := inA && x == ax+gx && y == ay+gy
+			want := "r"
+			switch {
+			case inA && inB && az == bz:
+				continue // unconstrained
+			case inA && inB && bz > az:
+				want = "b"
+			case inG:
+				want = "g"
+			case inA:
+				want = "a"
+			case inB:
+				want = "b"
+			}
+			ok = ok && vaxis.VerifNextCell(vx, x, y).Grapheme == want
+		}
+	}
+	zzverif.Assert(ok, "each-cell-shows-the-topmost-surface-clipped-to-its-parents")
+	zzverif.Reach("end")
+}
